@@ -128,6 +128,8 @@ register(NativeGroup('plumb.forms', dict(quick=[('forms', 3), ('forms_wide', 5),
                      _BN % (3, 5) + '; additionally N = 5, 6 (quick) / 6, 7 (thorough) trains with five selections each (whole list, reversed, rotated, all but one, a triple)', _WR))
 register(NativeGroup('plumb.degenerate', dict(quick=[('degenerate', 2), ('degenerate', 3)], thorough=[('degenerate', 2), ('degenerate', 3), ('degenerate', 4)]),
                      _BN % (3, 4) + '; every pattern of empty / non-empty trains', _WR))
+register(NativeGroup('plumb.many', dict(quick=[('forms_many', n) for n in (8, 9, 11, 13, 16, 17)], thorough=[('forms_many', n) for n in range(8, 34)]),
+                     'N = 8, 9, 11, 13, 16, 17 trains (quick) / every N from 8 to 33 (thorough): whole list and one rotation, list and indices forms, default and MRTS keywords; unbounded in the train contents', _WR))
 register(NativeGroup('plumb.repeated', dict(quick=[('repeated', 2), ('repeated', 3)], thorough=[('repeated', 2), ('repeated', 3), ('repeated', 4)]),
                      _BN % (3, 4) + '; lists in which a spike train occurs more than once (identical spike times), also next to trains without spikes', _WR))
 register(NativeGroup('plumb.reconcile', dict(quick=[('reconcile', 2), ('reconcile', 3)], thorough=[('reconcile', 2), ('reconcile', 3), ('reconcile', 4)]), _BN % (3, 4), _WR))
@@ -228,7 +230,7 @@ from ..contracts.value_p import SinglePassValueP  # noqa
 kernel('syncval_pyx.P', SinglePassValueP(DIST, 'coincidence_value_cython', 'sync'), 'P', standin='syncval_pyx.B', timeout_ms=60000)
 kernel('orderval_pyx.P', SinglePassValueP(DIRPYX, 'spike_train_order_cython', 'order'), 'P', standin='orderval_pyx.B', timeout_ms=60000)
 kernel('dirval_pyx.P', SinglePassValueP(DIRPYX, 'spike_directionality_cython', 'dir'), 'P', standin='dirval_pyx.B', timeout_ms=60000)
-from ..contracts.funcs_p import IntegralP, EvaluateP, AvrgP, PlottableP, MethodP  # noqa
+from ..contracts.funcs_p import IntegralP, EvaluateP, AvrgP, PlottableP, MethodP, DiscPlottableP  # noqa
 for _k in ('pwc', 'pwl', 'disc'):
     for _v in ('none', 'one'):
         kernel('%s_integral_%s.P' % (_k, _v), IntegralP(_k, _v), 'P', standin='%s_integral.B' % _k, timeout_ms=60000)
@@ -244,3 +246,4 @@ for _k in ('pwc', 'pwl', 'disc'):
     kernel('%s_copy.P' % _k, MethodP(_k, 'copy'), 'P', standin='%s_copy.B' % _k, timeout_ms=60000)
     kernel('%s_add_fb.P' % _k, MethodP(_k, 'add', 'fallback'), 'P', standin='%s_add_fb.B' % _k, timeout_ms=60000)
     kernel('%s_add_cy.P' % _k, MethodP(_k, 'add', 'compiled'), 'P', standin='%s_add_cy.B' % _k, timeout_ms=60000)
+kernel('disc_plot.P', DiscPlottableP(), 'P', standin='disc_plot.B', timeout_ms=60000)
